@@ -24,6 +24,7 @@ HANDLER = {
     ("tools/call", "h:noContent"): ("t-nocontent", ""), ("tools/call", "h:unencodable"): ("t-nan", ""),
     ("prompts/get", "h:error"): ("p-err", "boom-prompt"), ("prompts/get", "h:nil"): ("p-nil", ""),
     ("resources/read", "h:error"): ("r://err", "boom-resource"), ("resources/read", "h:nil"): ("r://nil", ""),
+    ("resources/read", "h:multi"): ("r://multi", ""), ("resources/read", "h:nilItem"): ("r://multi-nil", ""),
 }
 
 
